@@ -22,7 +22,7 @@ from typing import List
 from ..engine import Analysis, describe_path
 from ..frontend import AnalysisError, unparse
 from ..report import RuleResult
-from ..values import Const, Sym, V
+from ..values import Const, ListV, Sym, V
 from . import common
 from .c02 import encode_template
 
@@ -111,7 +111,28 @@ def to_msg_worker(analysis: Analysis, spec) -> dict:
         eq_prefix = any(f[0] == "atom" and f[1][0] == "eq" and "in_prefix" in repr(f[1]) for f in s.facts)
         eq_truth = [f[2] for f in s.facts if f[0] == "atom" and f[1][0] == "eq" and "in_prefix" in repr(f[1])]
         appended_payload = any("payload" in repr(e.args[0].key()) for e in appends if e.args)
-        rows.append({"kind": kind, "none": none, "ack": ack, "qos_pos": qos_pos, "qos_nonpos": qos_known_nonpos, "join_sep": join_sep, "levels_src": repr(joined.key())[:200] if isinstance(joined, V) else None, "guard": guard5, "prefix_cmp": eq_prefix, "prefix_equal": (True in eq_truth), "prefix_neq": (False in eq_truth), "append_payload": appended_payload, "nsplit": len(splits), "finds": len(finds), "witness": describe_path(out, 18)})
+        def bounds_of(v):
+            b = getattr(v, "slice_bounds", None) or {}
+            return {k: (x.value if isinstance(x, Const) else "?") for k, x in b.items()}
+
+        prefix_pos = any(e.recv is not None and isinstance(e.recv, Const) and e.recv.value == "/" and e.args and bounds_of(e.args[0]) == {"upper": -5} for e in joins)
+        last5 = joined is not None and bounds_of(joined) == {"lower": -5}
+        # the other shape: the joined value is an explicit six-element list [n, c, t, ack, s, str(payload)]
+        last5_by_items = None
+        jitems = getattr(joined, "items", None) if joined is not None else None
+        if jitems is not None and len(jitems) == 6:
+            if isinstance(jitems[3], Const):
+                ack = jitems[3].value
+            appended_payload = appended_payload or "payload" in repr(jitems[5].key())
+            pos = []
+            for i in (0, 1, 2, 4):
+                src = getattr(jitems[i], "src_list", None)
+                b = getattr(src, "slice_bounds", None) or {}
+                lo = b.get("lower")
+                pos.append(repr(jitems[i].key()).find(f"unpack{i}:") >= 0 and isinstance(lo, Const) and lo.value == -5 and "upper" not in b)
+            last5_by_items = all(pos)
+        last5 = bool(last5 or last5_by_items)
+        rows.append({"kind": kind, "none": none, "ack": ack, "qos_pos": qos_pos, "qos_nonpos": qos_known_nonpos, "join_sep": join_sep, "levels_src": repr(joined.key())[:200] if isinstance(joined, V) else None, "guard": guard5, "prefix_cmp": eq_prefix, "prefix_equal": (True in eq_truth), "prefix_neq": (False in eq_truth), "append_payload": appended_payload, "last5": last5, "prefix_pos": prefix_pos, "nsplit": len(splits), "finds": len(finds), "witness": describe_path(out, 18)})
     return {"rows": rows}
 
 
@@ -125,95 +146,132 @@ def to_msg_ast(analysis: Analysis, res: RuleResult) -> None:
         if isinstance(c.func, ast.Attribute) and c.func.attr in ("split", "rsplit") and (len(c.args) > 1 or c.keywords):
             bad.append(unparse(c)[:60])
     res.add("C17-R2", f"{TO_MSG} / no first-occurrence search on the topic (prefix may look like message levels)", not bad, w, "prefix recovered positionally" if not bad else f"search-based prefix recovery: {bad}")
-    txt = unparse(info.node)
-    pos = "[:-5]" in txt and "'/'.join(" in txt
-    res.add("C17-R2", f"{TO_MSG} / prefix is everything before the last five levels", pos, w, "\"/\".join(topic_levels[:-5])")
-    last5 = "[-5:]" in txt
-    res.add("C17-R1", f"{TO_MSG} / the command is built from exactly the last five levels", last5, w, "topic_levels[-5:]")
+
+
+HS = "gateway_mqtt:MQTTTransport.handle_subscription"
+
+
+def _template(v, names) -> str:
+    """Normal form of a requested topic: literal text with placeholders for the node id, the child id and
+    message-type members; anything else is shown as {?...}."""
+    from ..values import EnumMemV
+
+    if isinstance(v, Const) and isinstance(v.value, str):
+        return v.value
+    parts = getattr(v, "parts", None)
+    if parts is None:
+        return "{?" + repr(v.key())[:60] + "}"
+    out = []
+    for p in parts:
+        if isinstance(p, str):
+            out.append(p)
+        elif p.key() in names:
+            out.append("{" + names[p.key()] + "}")
+        elif isinstance(p, EnumMemV) and p.enum == "MessageType" and len(p.names) == 1:
+            out.append("{" + p.names[0] + "}")
+        elif isinstance(p, Const) and isinstance(p.value, int):
+            out.append(str(p.value))
+        else:
+            out.append("{?" + repr(p.key())[:60] + "}")
+    return "".join(out)
+
+
+def subscription_worker(analysis: Analysis, which: str) -> dict:
+    """Topics handed to handle_subscription by init_topics (one restored node with one child) and by the
+    MQTT presentation hook (inbound child presentation), as normalised templates per abstract path."""
+    from ..values import DictV, Obj, Unknown
+
+    ctx = analysis.context(analysis.versions[-1], "mqtt", "sync")
+    it = analysis.new_interp(ctx)
+    it.table_values = True
+    st, gw = analysis.gateway_state(it)
+    rows = []
+    if which == "presentation":
+        it.inline_skip = {HS, "handler:handle_presentation"}
+        msg = Obj("Message#inbound", "message:Message")
+        for n in ("node_id", "child_id", "type", "ack", "sub_type"):
+            st.mem[(msg.key(), "a", n)] = Unknown("int", label="inbound." + n)
+        st.mem[(msg.key(), "a", "payload")] = Unknown("str", label="inbound.payload")
+        st.mem[(msg.key(), "a", "gateway")] = gw
+        names = {("u", "inbound.node_id"): "node", ("u", "inbound.child_id"): "child"}
+        outs = analysis.run_root(it, "gateway_mqtt:BaseMQTTGateway._handle_presentation", [msg], gw, st)
+    else:
+        it.inline_skip = {HS}
+        sensor = Obj("Sensor#restored", "sensor:Sensor")
+        child = Obj("Child#restored", "sensor:ChildSensor")
+        st.mem[(sensor.key(), "a", "sensor_id")] = Sym(("root", "nid"), "int")
+        st.mem[(child.key(), "a", "id")] = Sym(("root", "cid"), "int")
+        st.mem[(sensor.key(), "a", "children")] = DictV({"c": child}, closed=True, label="children")
+        st.mem[(gw.key(), "a", "sensors")] = DictV({"n": sensor}, closed=True, label="sensors")
+        names = {("root", "nid"): "node", ("root", "cid"): "child"}
+        outs = analysis.run_root(it, "gateway_mqtt:BaseMQTTGateway.init_topics", [], gw, st)
+    for out in outs:
+        kind, s, v = out
+        subs = []
+        for e in s.events:
+            if e.kind == "opaque" and e.name == HS:
+                lst = e.args[1] if len(e.args) > 1 else None
+                items = getattr(lst, "items", None)
+                if items is None and isinstance(lst, V):
+                    items = None if getattr(lst, "elem", None) is not None or isinstance(lst, ListV) else [lst]
+                subs.append(None if items is None else [_template(i, names) for i in items])
+        facts = s.facts
+        child_real = any(f[0] == "atom" and f[1][0] == "eq" and "inbound.child_id" in repr(f[1]) and "255" in repr(f[1]) and f[2] is False for f in facts)
+        accepted = any(f[0] == "notnone" and "handle_presentation" in repr(f[1]) for f in facts)
+        pers_on = any(f[0] == "truthy" and repr(f[1]).endswith("'persistence')") for f in facts)
+        rows.append({"kind": kind, "exc": v.cls.__name__ if kind == "raise" else None, "subs": subs, "child_real": child_real, "accepted": accepted, "pers_on": pers_on, "witness": describe_path(out, 14)})
+    return {"which": which, "rows": rows}
 
 
 def subscriptions(analysis: Analysis, res: RuleResult) -> None:
-    p = analysis.p
-    init = p.func("gateway_mqtt:BaseMQTTGateway.init_topics")
-    pres = p.func("gateway_mqtt:BaseMQTTGateway._handle_presentation")
-
-    def templates(info) -> List[dict]:
-        out = []
-        nodes = list(ast.walk(info.node))
-        # string templates kept in module-level constants referenced by the function
-        for n in list(nodes):
-            if isinstance(n, ast.Name) and n.id in info.module.assigns and isinstance(info.module.assigns[n.id], (ast.Tuple, ast.List)):
-                nodes.extend(ast.walk(info.module.assigns[n.id]))
-        for n in nodes:
-            if isinstance(n, ast.JoinedStr):
-                lits = [v.value for v in n.values if isinstance(v, ast.Constant)]
-                vals = [unparse(v.value) for v in n.values if isinstance(v, ast.FormattedValue)]
-                out.append({"lit": lits, "vals": vals, "text": unparse(n), "levels": "".join(lits).count("/"), "node": n})
-            elif isinstance(n, ast.Constant) and isinstance(n.value, str) and n.value.startswith("/") and n.value.count("/") >= 3:
-                out.append({"lit": [n.value], "vals": [], "text": repr(n.value), "levels": n.value.count("/"), "node": n})
-        return out
-
-    t_init, t_pres = templates(init), templates(pres)
-    for info, ts in ((init, t_init), (pres, t_pres)):
-        for t in ts:
-            res.add("C17-R3", f"{info.qual} / template {t['text'][:60]} has exactly five levels", t["levels"] == 5, common.where(analysis, info, t["node"]), f"{t['levels']} separators")
-    # initial set: presentation and internal by numeric value, for every version
-    consts = [t for t in t_init if not t["vals"]]
+    """R3 by evaluation: what init_topics requests for a restored child is what the presentation hook requests
+    for a newly presented one; the constant initial topics cover presentation and internal."""
+    where = "mysensors/gateway_mqtt.py"
+    FAMILY = {"/{node}/{child}/{set}/+/+", "/{node}/{child}/{req}/+/+", "/{node}/+/{stream}/+/+"}
+    sums = {x["which"]: x for x in common.pmap(analysis, subscription_worker, ["init", "presentation"])}
+    init, pres = sums["init"]["rows"], sums["presentation"]["rows"]
+    for name, rows in (("init_topics", init), ("_handle_presentation", pres)):
+        for r in rows:
+            if r["kind"] == "raise":
+                res.add("C17-R3", f"gateway_mqtt:BaseMQTTGateway.{name} / does not raise", False, where, r["exc"], r["witness"])
+            for sub in r["subs"]:
+                if sub is None:
+                    res.add("C17-R3", f"gateway_mqtt:BaseMQTTGateway.{name} / requested topics are known item by item", False, where, "a subscription request whose topic list cannot be enumerated for one node with one child", r["witness"])
+                    continue
+                for t in sub:
+                    res.add("C17-R3", f"gateway_mqtt:BaseMQTTGateway.{name} / template {t} has exactly five levels after the prefix", t.count("/") == 5 and "{?" not in t, where, f"{t.count('/')} separators" if "{?" not in t else "a level is filled from an unrecognised value")
+    # initial constant topics: on every path, first request
+    firsts = [r["subs"][0] for r in init if r["kind"] == "val" and r["subs"]]
+    ok_first = bool(firsts) and len(firsts) == len([r for r in init if r["kind"] == "val"]) and all(f is not None and all("{" not in t for t in f) for f in firsts)
+    res.add("C17-R3", "gateway_mqtt:BaseMQTTGateway.init_topics / every path first requests the constant initial topics", ok_first, where, f"{firsts[0] if firsts else None}")
     got = set()
-    for t in consts:
-        parts = t["lit"][0].split("/")
-        if len(parts) == 6 and parts[3].isdigit():
-            got.add(int(parts[3]))
-            res.add("C17-R3", f"{init.qual} / initial template {t['lit'][0]} subscribes every node, child, ack and sub-type", parts[1] == parts[2] == parts[4] == parts[5] == "+", common.where(analysis, init, t["node"]), "wildcards")
+    for f in firsts:
+        for t in f or []:
+            parts = t.split("/")
+            if len(parts) == 6 and parts[3].isdigit():
+                got.add(int(parts[3]))
+                res.add("C17-R3", f"gateway_mqtt:BaseMQTTGateway.init_topics / initial template {t} subscribes every node, child, ack and sub-type", parts[1] == parts[2] == parts[4] == parts[5] == "+", where, "wildcards")
     for ver, c in analysis.refl["consts"].items():
         mt = {n: v for n, v in c["enums"]["MessageType"]["members"]}
         want = {mt.get("presentation"), mt.get("internal")}
-        res.add("C17-R3", f"{ver}: the initial subscriptions cover presentation and internal", want <= got, common.where(analysis, init, init.node), f"type levels subscribed {sorted(got)}, needed {sorted(want)}")
-
-    def family(ts):
-        fam = []
-        for t in ts:
-            if not t["vals"]:
-                continue
-            shape = tuple(t["lit"])
-            kinds = []
-            for v in t["vals"]:
-                if "stream" in v:
-                    kinds.append("stream")
-                elif v == "msg_type" or v.endswith("_type") or v == "command":
-                    kinds.append("msg_type")
-                elif "child" in v:
-                    kinds.append("child")
-                elif "node_id" in v or "sensor_id" in v:
-                    kinds.append("node")
-                else:
-                    kinds.append("?" + v)
-            fam.append((shape, tuple(kinds)))
-        return sorted(fam)
-
-    f_init, f_pres = family(t_init), family(t_pres)
-    res.add("C17-R3", "per-child subscription family is generated identically for restored and for new children", f_init == f_pres and len(f_init) == 2, common.where(analysis, pres, pres.node), f"init_topics {f_init}; _handle_presentation {f_pres}")
-
-    def msg_types(info):
-        for n in ast.walk(info.node):
-            if isinstance(n, (ast.comprehension, ast.For)) and isinstance(n.target, ast.Name) and isinstance(n.iter, (ast.Tuple, ast.List)) and all("MessageType" in unparse(e) for e in n.iter.elts) and n.iter.elts:
-                return sorted(unparse(e).split(".")[-1].rstrip(")") for e in n.iter.elts)
-        return None
-
-    mi, mp = msg_types(init), msg_types(pres)
-    res.add("C17-R3", "per-child topics cover set and req", mi == mp == ["req", "set"], common.where(analysis, pres, pres.node), f"init {mi}; presentation {mp}")
-    # only after an accepted child presentation
-    guard = None
-    for n in pres.node.body:
-        if isinstance(n, ast.If) and any(isinstance(x, ast.Return) for x in n.body):
-            guard = unparse(n.test)
-    ok = guard is not None and "255" in guard.replace("SYSTEM_CHILD_ID", "255") and "is None" in guard
-    res.add("C17-R3", f"{pres.qual} / subscribes only after an accepted child presentation", ok, common.where(analysis, pres, pres.node), f"guard `{guard}`")
-    calls_base = any(isinstance(c.func, ast.Name) and c.func.id == "handle_presentation" for c in common.calls_in(pres.node))
-    res.add("C17-R3", f"{pres.qual} / delegates to the shared presentation handler", calls_base, common.where(analysis, pres, pres.node), "handle_presentation(msg)")
-    # restored children only when persistence is on; every call site passes lists built from these templates
-    n_calls = sum(1 for m in (init, pres) for _ in common.calls_in(m.node, "handle_subscription"))
-    res.add("C17-R3", "three subscription call sites", n_calls == 3, "mysensors/gateway_mqtt.py", f"{n_calls} call sites of handle_subscription")
+        res.add("C17-R3", f"{ver}: the initial subscriptions cover presentation and internal", want <= got, where, f"type levels subscribed {sorted(got)}, needed {sorted(want)}")
+    # restored child (persistence on): the per-child family
+    on = [r for r in init if r["kind"] == "val" and r["pers_on"]]
+    fam_init = [set().union(*[set(x) for x in r["subs"][1:] if x is not None]) if len(r["subs"]) > 1 else set() for r in on]
+    ok_init = bool(on) and all(f == FAMILY for f in fam_init)
+    res.add("C17-R3", "gateway_mqtt:BaseMQTTGateway.init_topics / with persistence on, a restored child gets its set and req topics and its node the stream topic", ok_init, where, f"{sorted(fam_init[0]) if fam_init else None}", next((r["witness"] for r, f in zip(on, fam_init) if f != FAMILY), None))
+    # newly presented child
+    subscribing = [r for r in pres if r["kind"] == "val" and r["subs"]]
+    silent = [r for r in pres if r["kind"] == "val" and not r["subs"]]
+    fam_pres = [set().union(*[set(x) for x in r["subs"] if x is not None]) for r in subscribing]
+    ok_pres = bool(subscribing) and all(f == FAMILY for f in fam_pres)
+    res.add("C17-R3", "per-child subscription family is generated identically for restored and for new children", ok_pres and ok_init, where, f"init_topics {sorted(fam_init[0]) if fam_init else None}; _handle_presentation {sorted(fam_pres[0]) if fam_pres else None}", next((r["witness"] for r, f in zip(subscribing, fam_pres) if f != FAMILY), None))
+    res.add("C17-R3", "per-child topics cover set and req", ok_pres, where, "set, req and the node's stream topic")
+    ok_guard = bool(subscribing) and all(r["child_real"] and r["accepted"] for r in subscribing)
+    res.add("C17-R3", "gateway_mqtt:BaseMQTTGateway._handle_presentation / subscribes only after an accepted child presentation", ok_guard, where, "child_id != 255 and the shared handler returned a message", next((r["witness"] for r in subscribing if not (r["child_real"] and r["accepted"])), None))
+    ok_all = all(not (r["child_real"] and r["accepted"]) for r in silent)
+    res.add("C17-R3", "gateway_mqtt:BaseMQTTGateway._handle_presentation / every accepted child presentation subscribes", ok_all, where, "no silent path under child_id != 255 and an accepted presentation", next((r["witness"] for r in silent if r["child_real"] and r["accepted"]), None))
+    res.add("C17-R3", "gateway_mqtt:BaseMQTTGateway._handle_presentation / delegates to the shared presentation handler", any(r["accepted"] for r in pres), where, "handle_presentation(msg)")
 
 
 def isolation_worker(analysis: Analysis, spec) -> dict:
@@ -273,6 +331,8 @@ def run(analysis: Analysis, tier: str) -> RuleResult:
             res.add("C17-R1", f"{TO_MSG} / level 4 (ack) is \"1\" exactly when QoS > 0", ok_ack, "mysensors/gateway_mqtt.py", f"ack {r['ack']!r} with qos>0 known {r['qos_pos']}, qos<=0/None known {r['qos_nonpos']}", r["witness"] if not ok_ack else None)
             res.add("C17-R1", f"{TO_MSG} / the payload is appended and the fields joined with ';'", r["append_payload"] and r["join_sep"] == ";", "mysensors/gateway_mqtt.py", f"separator {r['join_sep']!r}", r["witness"] if not (r["append_payload"] and r["join_sep"] == ";") else None)
             res.add("C17-R2", f"{TO_MSG} / a command is produced only when the recovered prefix equals the configured inbound prefix", r["prefix_equal"], "mysensors/gateway_mqtt.py", "prefix == transport.in_prefix on the accepting path", r["witness"] if not r["prefix_equal"] else None)
+            res.add("C17-R2", f"{TO_MSG} / prefix is everything before the last five levels", r["prefix_pos"], "mysensors/gateway_mqtt.py", "\"/\".join(levels[:-5])", r["witness"] if not r["prefix_pos"] else None)
+            res.add("C17-R1", f"{TO_MSG} / the command is built from exactly the last five levels", r["last5"], "mysensors/gateway_mqtt.py", "levels[-5:]", r["witness"] if not r["last5"] else None)
             res.add("C17-R2", f"{TO_MSG} / a length guard dominates the level accesses", r["guard"], "mysensors/gateway_mqtt.py", "len(topic_levels) compared before slicing", r["witness"] if not r["guard"] else None)
         res.add("C17-R2", f"{TO_MSG} / a wrong prefix is rejected", any(r["prefix_neq"] for r in rejected), "mysensors/gateway_mqtt.py", "a rejecting path on prefix mismatch exists")
     subscriptions(analysis, res)
